@@ -16,9 +16,9 @@ CLAIMED = {
         note="Trusted: TLC, sensors, ScriptedCoupling. Known findings (recorded, not repaired): fall-out exit of the while loop (C06-fallout), zero-cost levels (C06-zerocost). Termination is for environments with bounded sample sizes. initial_level <= maximum_level assumed.",
         ref="5 (C06)"),
     "C17": dict(
-        technique="TLA+ spec Product.tla (payoffs/underlyings as pure functions of integer paths + the objects' hidden state) model-checked by TLC over all evaluation histories; evaluation histories of real product objects trace-validated by TLC",
+        technique="TLA+ specs Product.tla (payoffs/underlyings as pure functions of integer paths + the objects' hidden state) and Product2.tla (multi-asset underlyings, rate payoffs over exact rationals) model-checked by TLC over all evaluation histories / static identities; evaluation histories of real product objects trace-validated by TLC",
         text="TLC explores every history (<= 4 steps) of update(representation) / evaluate(path) on one product object for every term x path of the model and checks Pure (value = pure function of terms and path) and the static identities (parity, spread/butterfly = call combinations >= 0, digitals sum to one, in+out = vanilla, average between extremes). Real objects of every payoff / underlying class are driven through all histories of length <= 3 (<= 4 thorough) plus longer random ones over integer paths, non-uniform time grids, identity and log representations; every returned value must equal notional * PureValue computed by TLC.",
-        note="Trusted: TLC, exact-integer sensor (values doubled). LookBack excluded (its process() raises unconditionally). Ties spot = strike under the log representation are not judged (exp(log x) rounding). Rainbow/Swaption/Cap/Ratchet/Bond/CDS payoffs are not modelled yet.",
+        note="Trusted: TLC, exact-integer sensor (values doubled). LookBack excluded (its process() raises unconditionally). Ties spot = strike under the log representation are not judged (exp(log x) rounding). Multi-asset underlyings and Rainbow / Bond / Cap / Swaption / Ratchet / FixedCoupon are modelled over exact rationals in Product2.tla (static identities model-checked; real objects trace-validated after update / evaluate histories); the CDS payoff and the LogSpot underlying are not modelled (exponentials / logarithms).",
         ref="5 (C17)"),
     "C13": dict(
         technique="TLA+ spec Grid.tla (axes with explicit shared/per-axis array storage, in-place refinement) model-checked by TLC; every real constructor + refinements trace-validated by TLC on rank-encoded axes",
